@@ -57,6 +57,9 @@ def run_case(case, ctx):
                 spikeless=['none', 'first', 'middle', 'last'][int(rng.integers(0, 4))], ncdat_extra=0,
                 dtype_ids=['int32', 'uint16', 'uint32', 'int64'][int(rng.integers(0, 4))],
                 far_ids=int(rng.choice([0, 0, 0, 0, 300, 14000])), interleave=bool(rng.random() < 0.3))
+    opts.update(dtype_amps=['float64', 'float32'][int(rng.integers(0, 2))],
+                dtype_templates=['float32', 'float32', 'float64'][int(rng.integers(0, 3))],
+                dtype_feat=['float32', 'float64'][int(rng.integers(0, 2))])
     spec = random_spec(rng, **opts)
     curated = spec.curated
     st, sc = spec.spike_templates.astype(np.int64), spec.clusters.astype(np.int64)
